@@ -104,7 +104,28 @@ class Pool:
             t.start()
         for t in ths:
             t.join()
+        # one retry (on a restarted worker with the same hash seed) for jobs lost to an infrastructure failure
+        for k, (w, job) in enumerate(tasks):
+            if out[k] is None or "infra_error" in out[k]:
+                first = (out[k] or {}).get("infra_error")
+                self.restart(w % self.n)
+                qs[w % self.n].put((k, job))
+                feed(w % self.n)
+                if out[k] is not None and "infra_error" not in out[k]:
+                    out[k]["retried_after"] = str(first)
         return out
+
+    def restart(self, w):
+        try:
+            self.procs[w].kill()
+        except Exception:  # noqa: BLE001
+            pass
+        env = dict(os.environ)
+        env["PYTHONHASHSEED"] = str(w)
+        env["REPO"] = common.REPO
+        env["PYTHONWARNINGS"] = "ignore"
+        self.procs[w] = subprocess.Popen([sys.executable, "-m", "harness.evoutil", "--worker"], cwd=common.VERIF, env=env,
+                                         stdin=subprocess.PIPE, stdout=subprocess.PIPE, stderr=subprocess.DEVNULL, text=True)
 
     def close(self):
         for p in self.procs:
@@ -993,7 +1014,9 @@ def oracle_run(res, job, out):
     evs = [e["ev"] for e in tr if e["ev"] != "init"]
     per = ["update_hof"] + (["adapt"] if job["adapt"] else []) + ["logs", "save"] + (["tournament"] if job["sel"] else [])
     if evs != per * job["n_stop"]:
-        bad("solve:step-order", "a generation does not run update_hof, (adapt), update_logs, save, (selection) in this order", impl=str(evs[:12]))
+        # the order of the steps inside a generation is not a clause of the property: it is part of the correspondence with the
+        # model's `generation` (update_hof before selection is what the "keeps the best" theorems rest on)
+        res.exact_break("solve:step-order", input=inp, impl=str(evs[:12]), model=str(per))
     # selection: new objects, honest copies
     for e in tr:
         if e["ev"] == "tournament" and job.get("k", 2) != 0:
